@@ -23,6 +23,18 @@ Fixpoint val_same (a b : val) : bool :=
                        | [], [] => true
                        | x :: r1, y :: r2 => val_same x y && eq r1 r2
                        | _, _ => false end) xs ys
+  | VC x, VC y => String.eqb x y
+  | VD xs, VD ys =>          (* observed dicts are compared WITH their insertion order *)
+      (fix eq l1 l2 := match l1, l2 with
+                       | [], [] => true
+                       | (k, x) :: r1, (k', y) :: r2 => val_same k k' && val_same x y && eq r1 r2
+                       | _, _ => false end) xs ys
+  | VR c xs, VR d ys =>
+      String.eqb c d
+      && (fix eq l1 l2 := match l1, l2 with
+                          | [], [] => true
+                          | (k, x) :: r1, (k', y) :: r2 => String.eqb k k' && val_same x y && eq r1 r2
+                          | _, _ => false end) xs ys
   | _, _ => false
   end.
 
